@@ -349,3 +349,6 @@ def run(ctx):
     rule_verdict_depends(ctx)
     rule_overflow_reaches_fallback(ctx)
     rule_number_table(ctx)
+    # R9.7: no behaviour changes at a number fixed in the source (sizes, depths, counts, magnitudes are unbounded in the property's domain)
+    from . import scope as _scope
+    _scope.rule_no_size_thresholds(ctx, 'R9.7', ('_validators', '_legacy_validators'), 'the numeric keywords')
